@@ -31,6 +31,8 @@
 //     entry (incl. its errors, and whether it is the cached one) is compared with the sequential
 //     answer; pipeline 0 converts each of these nodes once while building the set and reports a
 //     node for which a second call does not return the cached entry (guard of toentry-miss);
+//   - the first private set of every pipeline is a deep one (150-220 nested containers), so that
+//     all pipelines are deep in the recursion of the conversion at the same time;
 //   - every other round the shared set is a directory set: files on the search path, modules read
 //     by name, import / include statements pinned to revision-dates that are not the loaded
 //     revision; readers resolve prefixes against it (absolute prefixed Find, FindModuleByPrefix);
@@ -334,6 +336,29 @@ func genSet(r *rand.Rand, withErrors bool, pal palette) ([]modSrc, genStats) {
 	return out, st
 }
 
+// deepSet: one module of 150-220 nested containers (every fifth level also uses a small grouping
+// once groupings are in use in the process), a leaf on every level.  All pipelines of a round
+// convert one such set first, at the same time: whatever limits or counts the recursion of the
+// conversion must do so per module set, and each dump must equal the sequential one.
+func deepSet(r *rand.Rand, pal palette) []modSrc {
+	depth := 150 + r.Intn(71)
+	var b strings.Builder
+	b.WriteString("module deep {\n  yang-version 1.1;\n  namespace \"urn:deep\";\n  prefix d;\n")
+	if pal.uses {
+		b.WriteString("  grouping dg { leaf gl { type string; default \"g\"; } }\n")
+	}
+	for i := 0; i < depth; i++ {
+		fmt.Fprintf(&b, "%scontainer d%d { leaf x%d { type uint8; default %d; }", strings.Repeat(" ", 1+i%8), i, i, i%200)
+		if pal.uses && i%5 == 4 {
+			b.WriteString(" uses dg;")
+		}
+		b.WriteString("\n")
+	}
+	b.WriteString(" leaf bottom { type string; }\n")
+	b.WriteString(strings.Repeat("}", depth) + "\n}\n")
+	return []modSrc{{"deep.yang", b.String()}}
+}
+
 func hashSet(srcs []modSrc) string {
 	h := sha256.New()
 	for _, s := range srcs {
@@ -472,6 +497,38 @@ func describe(e *yang.Entry) string {
 		fmt.Fprintf(&b, " def=%q la=%s", e.DefaultValues(), listAttr(e))
 		if e.Type != nil {
 			fmt.Fprintf(&b, " type=%s/%v range=%v length=%v", e.Type.Name, e.Type.Kind, e.Type.Range, e.Type.Length)
+		}
+		return b.String()
+	})
+}
+
+// pipelineLight is the same run with a cheaper dump, for the deep sets (the full dump costs
+// depth x nodes): the errors of Process, the number of nodes, every 25th node and the last one
+// described, the entry errors.
+func pipelineLight(srcs []modSrc) string {
+	return guard(func() string {
+		ms, errs := load(srcs, "")
+		var b strings.Builder
+		fmt.Fprintf(&b, "errors %q\n", errs)
+		for _, name := range modNames(ms) {
+			root := yang.ToEntry(ms.Modules[name])
+			nodes := walk(name, root)
+			fmt.Fprintf(&b, "module %s: %d nodes\n", name, len(nodes))
+			for i, n := range nodes {
+				if i%25 == 0 || i == len(nodes)-1 {
+					b.WriteString(describe(n.e))
+					b.WriteByte('\n')
+				}
+				if len(n.e.Errors) > 0 {
+					fmt.Fprintf(&b, "errors at %s: %d\n", strings.Join(n.path, "/"), len(n.e.Errors))
+				}
+			}
+			var es []string
+			for _, e := range root.GetErrors() {
+				es = append(es, e.Error())
+			}
+			sort.Strings(es)
+			fmt.Fprintf(&b, "entry errors %q\n", es)
 		}
 		return b.String()
 	})
@@ -898,14 +955,25 @@ func doRound(seed int64, round, n, batch int) roundResult {
 	// Some pipelines work through three sets so that they are still running while the readers
 	// query the shared set; with many pipelines the rest do one set each (time budget).
 	type privSet struct {
-		srcs []modSrc
-		dir  string
+		srcs  []modSrc
+		dir   string
+		light bool // deep set: cheaper dump
+	}
+	dump := func(ps privSet) string {
+		if ps.light {
+			return pipelineLight(ps.srcs)
+		}
+		return pipeline(ps.srcs, ps.dir)
 	}
 	privs := make([][]privSet, np)
 	for k := range privs {
 		sets := 3
 		if np > 4 && k >= np/8 {
 			sets = 1
+		}
+		// first of all a deep set, for every pipeline (every other one when there are many) at the same moment
+		if np <= 4 || k%2 == 0 {
+			privs[k] = append(privs[k], privSet{srcs: deepSet(r, pal), light: true})
 		}
 		for q := 0; q < sets; q++ {
 			ppal := pal
@@ -964,7 +1032,7 @@ func doRound(seed int64, round, n, batch int) roundResult {
 				}()
 			}
 			for _, set := range privs[k] {
-				gotDump[k] = append(gotDump[k], pipeline(set.srcs, set.dir))
+				gotDump[k] = append(gotDump[k], dump(set))
 			}
 		}(k)
 	}
@@ -1075,8 +1143,9 @@ func doRound(seed int64, round, n, batch int) roundResult {
 	for k := 0; k < np; k++ {
 		for q, set := range privs[k] {
 			res.Evals++
-			if want := pipeline(set.srcs, set.dir); gotDump[k][q] != want {
-				res.Problems = append(res.Problems, fmt.Sprintf("pipeline %d, set %d: dump of the concurrent run differs from the sequential run (%d vs %d bytes)", k, q, len(gotDump[k][q]), len(want)))
+			if want := dump(set); gotDump[k][q] != want {
+				res.Problems = append(res.Problems, fmt.Sprintf("pipeline %d, set %d: dump of the concurrent run differs from the sequential run (%d vs %d bytes): %s", k, q, len(gotDump[k][q]), len(want),
+					strings.Replace(strings.Replace(firstDiff(want, gotDump[k][q]), "alone ", "sequential ", 1), "here ", "concurrent ", 1)))
 			}
 		}
 	}
@@ -1500,6 +1569,7 @@ func main() {
 		"reader paths: only existing nodes; the guards of the allow-list (allow.json) are asserted after every round",
 		"independence: after its last round every child process dumps a fixed canary module set (all statement kinds, plain lists and leaf-lists); the dump must equal the one a fresh process makes of the same set alone; a difference is bisected to the first round that causes it",
 		"ToEntry storm: after the namespace look-ups all readers pass a barrier and call yang.ToEntry on the AST node behind every entry of the processed trees (modules, containers, lists, leaves, stand-in leaves of leaf-lists, choices, cases, rpc parts, notifications, nodes from uses/augment) and on every grouping, same order, three times; the answer (name, kind, type, default, list attributes, children, errors of the returned entry, and whether it is the entry the cache held after the set was built) is compared with the sequential answer; the builder reports a node for which two consecutive ToEntry calls return different entries (guard of toentry-miss)",
+		"deep sets: the first private set of every pipeline is one module of 150-220 nested containers, converted by all pipelines at the same time; its dump must equal the sequential one (no process-wide budget or counter of the recursion)",
 		"directory sets: every other shared set (and a third of the private sets) is written to a directory that stays on the search path and is loaded by Read; its import / include statements carry revision-dates that are not the loaded revision; readers resolve prefixes (absolute prefixed Find, FindModuleByPrefix) against it",
 		"restrictions with the keywords min / max directly on built-in types (range on all integer types and decimal64, length on string and binary) occur in every set, so that the package-level range tables are the parents in concurrent pipelines",
 		"cold start: each child process begins with the concurrent phase (nothing converted before); statement kinds are introduced one per round within a process, so first-use writes of process-wide tables meet concurrent goroutines",
